@@ -833,7 +833,12 @@ func eqnil(t types.Type, x, y value) bool {
 		case *closure:
 			return (x != nil) == (y.(*ssa.Function) != nil)
 		case []value:
+			if _, ok := y.(symBytes); ok {
+				return false // x is the nil literal, y is never nil
+			}
 			return (x != nil) == (y.([]value) != nil)
+		case symBytes:
+			return false
 		}
 		panic(fmt.Sprintf("eqnil(%s): illegal dynamic type: %T", t, x))
 	}
@@ -1036,6 +1041,8 @@ func callBuiltin(caller *frame, fn *ssa.Builtin, args []value) value {
 			return len((*x).(array))
 		case []value:
 			return len(x)
+		case symBytes:
+			return x.n
 		case *omap:
 			return x.len()
 		case *chanObj:
@@ -1049,6 +1056,8 @@ func callBuiltin(caller *frame, fn *ssa.Builtin, args []value) value {
 
 	case "cap":
 		switch x := args[0].(type) {
+		case symBytes:
+			return x.n
 		case array:
 			return cap(x)
 		case *value:
